@@ -17,7 +17,11 @@ RULE = ("every PDAG(n) (per pair: none, ->, <-, --; cyclic directed layers inclu
         "object, for cons cases with edges added/removed in between) and pre-existing 'order'/'label' edge attributes; returned objects edited in place between calls; "
         "P.copy() judged after a warm-up on P; mixed UNORDERABLE labels (ints and strs) on all PDAG(n<=3), 25% of the shaped and 20% "
         "of the random PDAGs (exception class must stay ValueError); 300 (quick) shaped 5-6 node PDAGs (2-3 parents into an "
-        "undirected clique of 2-3); quick also runs the consequences on all DAG(5) with >=9 edges and 700 sampled DAG(5). Oracle (all orientations of the undirected edges) when |U|<=12. "
+        "undirected clique of 2-3); quick also runs the consequences on all DAG(5) with >=9 edges and 700 sampled DAG(5); identity-hashed ('obj') and other label "
+        "families on all PDAG(n<=3), 120 shaped PDAGs and 60 DAG round trips; 300 dense (p=0.7-0.9) 6-8 node PDAGs / DAG round trips; "
+        "4 long PDAGs (150-200 nodes, recursion limit lowered to depth+120, HEAD is iterative; for these only raises-or-not, nodes, "
+        "acyclicity, skeleton and kept directed edges are checked — the v-structure check is cubic); edge attributes incl. weight "
+        "0/None/nan. Oracle (all orientations of the undirected edges) when |U|<=12. "
         "distinct by canonical graph; non-trivial = PDAG has an undirected and a directed edge")
 EXHAUSTIVE = {"quick": "all PDAG(n) n<=3; patterns and consequences of all DAG(n) n<=4",
               "thorough": "all 4096 PDAG(4) and smaller; patterns and consequences of all DAG(n) n<=5"}
@@ -194,21 +198,63 @@ def gen_cases(tier, rng):
         dense = [g for g in d5 if len(g["D"]) >= 9]
         for g in dense + rng.sample(d5, 700):
             yield {"kind": "cons5-sample", "mode": "cons", "g": g}
+    # identity-hashed / other label families (pdag_to_dag copies the graph: a deep copy of the labels would change the nodes)
+    i = 0
+    for n in (2, 3):
+        for g in gr.enum_pdag(n, acyclic=False):
+            i += 1
+            yield {"kind": "pdag%d-lab" % n, "mode": "pdag", "g": g, "_lab": "obj" if i % 2 else c04.LAB_FAMILIES[i % 7]}
+    for i in range(120 if tier == "quick" else 600):
+        c = {"kind": "shaped-lab", "mode": "pdag", "g": shaped_pdag(rng, rng.randint(5, 6)),
+             "_lab": "obj" if i % 2 else rng.choice(c04.LAB_FAMILIES)}
+        if i % 3 == 0:
+            c["repeat"] = True
+        yield c
+    for i in range(60 if tier == "quick" else 300):
+        g = c04.random_dag(rng, rng.randint(4, 7), rng.choice([0.3, 0.5]))
+        yield {"kind": "cons-lab", "mode": "cons", "g": g, "_lab": "obj" if i % 2 else rng.choice(c04.LAB_FAMILIES)}
+    # dense 6-8 node PDAGs (p = 0.7-0.9): a dense DAG with part of its non-v-structure edges undirected (extendable), or with
+    # arbitrary edges undirected / one edge flipped; consequences on dense DAGs
+    for i in range(300 if tier == "quick" else 1500):
+        d = c04.random_dag(rng, rng.randint(6, 8), rng.choice([0.7, 0.8, 0.9]))
+        if i % 3 == 2:
+            yield {"kind": "dense-cons", "mode": "cons", "g": d}
+            continue
+        pat = pattern_of(d)
+        if i % 3 == 0:
+            und = [e for e in pat["U"] if rng.random() < 0.6]
+        else:
+            und = [e for e in d["D"] if rng.random() < 0.4]
+            if und and rng.random() < 0.5:
+                k = rng.randrange(len(d["D"]))
+                d = dict(d, D=[e if j != k else [e[1], e[0]] for j, e in enumerate(d["D"])])
+                und = [e for e in und if e in d["D"]]
+        yield {"kind": "dense", "mode": "pdag", "orc": 8, "g": gr.G(d["V"], D=[e for e in d["D"] if e not in und], U=und)}
+    # long PDAGs under a lowered recursion limit (HEAD is iterative): model only, no validity re-check (cubic in n)
+    for i in range(4 if tier == "quick" else 12):
+        d = c04.long_dag(rng, rng.randint(150, 200))
+        und = [e for e in pattern_of(d)["U"] if rng.random() < 0.7]
+        yield {"kind": "deep", "mode": "pdag", "deep": True, "_reclimit": 120,
+               "g": gr.G(d["V"], D=[e for e in d["D"] if e not in und], U=und)}
     for g in gr.enum_pdag(3, acyclic=False):
         yield {"kind": "pdag3-repeat", "mode": "pdag", "g": g, "repeat": True, "attrs": rng.randint(0, 10 ** 6)}
 
 
 def oracle_on(case):
-    return len(case["g"]["U"]) <= 12
+    return len(case["g"]["U"]) <= case.get("orc", 12)
 
 
 def encode(case):
+    if case.get("deep"):
+        return [5, gr.enc(case["g"])]
     if case["mode"] == "pdag":
         return [0 if oracle_on(case) else 1, gr.enc(case["g"])]
     return [4, gr.enc(case["g"]), c04.topo_order(case)]
 
 
 def decode(case, v):
+    if case.get("deep"):
+        return {"raises": v[0] == 0, "model_valid": 1, "oracle": 2, "wf": 1, "code_raises": None}
     if case["mode"] == "pdag":
         return {"raises": v[0] == 0, "model_valid": v[1], "oracle": v[2], "wf": v[3], "code_raises": v[4] == 0}
     return {"fix": v[0], "equiv": v[1]}
@@ -249,7 +295,13 @@ def run_impl(case):
         out = {"raises": False, "mutated": gr.snapshot(P) != before}
         d = _dag_abs(R, inv)
         out["nodes"] = d["V"]
-        out["valid"] = coq_eval([[2, gr.enc(g), gr.enc(d)]])[0][0]
+        if case.get("deep"):     # the checker is cubic in n: for the long graphs check acyclicity, skeleton and kept edges here
+            E = {tuple(e) for e in d["D"]}
+            skel = {frozenset(e) for e in g["D"]} | {frozenset(e) for e in g["U"]}
+            out["valid"] = int(gr.is_acyclic(d["V"], d["D"]) and {frozenset(e) for e in E} == skel and len(E) == len(skel)
+                               and all(tuple(e) in E for e in g["D"]))
+        else:
+            out["valid"] = coq_eval([[2, gr.enc(g), gr.enc(d)]])[0][0]
         return out
     Dg, lab, inv = c04.build(case, first_call=dag_to_cpdag)
     with contextlib.redirect_stdout(sink):
@@ -303,6 +355,7 @@ def nontrivial(case, model):
 
 def key(case):
     return (case["mode"], gr.canon(case["g"]), bool(case.get("repeat")), case.get("attrs"), bool(case.get("mixed")),
+            case.get("_lab"),
             bool(case.get("copy")),
             tuple(map(tuple, case.get("drop", []))), tuple(map(tuple, case.get("extra", []))))
 
